@@ -27,6 +27,11 @@ CFG = {
     # streams of zero duty (CP 0) between two temperatures: legal input that contributes rows but no heat
     "quickZ": dict(Temps={0, 100, 200}, CPs={0, 1}, DTCs={0, 50}, LatentCPs=set(), MaxStreams=3,
                    UtilOpts={1}, NZones=1),
+    # a dynamic range of a million between the streams of one problem (a plant entered in W next to trim duties): a residual that is
+    # tiny against the largest duty is still not a pinch.  Replayed under the exact embeddings only (absolute zero tests at 1e-6
+    # cannot be expected to survive rounding noise at 1e8)
+    "quickW": dict(Temps={0, 100, 200}, CPs={1, 1000000}, DTCs={0, 50}, LatentCPs=set(), MaxStreams=3,
+                   UtilOpts={1}, NZones=1),
     "deepL": dict(Temps={0, 100, 200, 300}, CPs={1, 2}, DTCs={0, 50}, LatentCPs={150}, MaxStreams=3,
                   UtilOpts={0, 1}, NZones=1),
     "quickB": dict(Temps={0, 100, 200}, CPs={1, 2}, DTCs={0, 50}, LatentCPs={150}, MaxStreams=3,
@@ -318,7 +323,7 @@ def check(prop: str, tier: str, run: Run, replay_case=None):
                 run.violation(clause, replay_case["case"], d)
         run.cov["evaluations"] = 1
         return
-    names = ["quickA", "quickL", "quickB", "quickZ"] if tier == "quick" else ["deepL", "quickB", "quickZ", "deepA", "deepB", "deepC"]
+    names = ["quickA", "quickL", "quickB", "quickZ", "quickW"] if tier == "quick" else ["deepL", "quickB", "quickZ", "quickW", "deepA", "deepB", "deepC"]
     run.assumptions += [
         "lattice inputs: temperatures multiples of 1 unit, tolerance windows of the code coincide with exact comparisons (DESIGN 3)",
         "TLC's evaluation of the definitional operators in spec/Cascade.tla is the oracle",
@@ -349,7 +354,9 @@ def check(prop: str, tier: str, run: Run, replay_case=None):
             jobs = [(c, embs3[i % 3]) for i, c in enumerate(sample(cases, 1500 if tier == "quick" else 12000, 1))]
             fn, init = replay_service, _init_service
         else:
-            if tier == "quick":
+            if name == "quickW":
+                jobs = [(c, (E0.name, E1.name)[(i + seed()) % 2]) for i, c in enumerate(cases)]
+            elif tier == "quick":
                 jobs = [(c, embs3[(i + seed()) % 3]) for i, c in enumerate(cases)]
             else:
                 jobs = [(c, e) for c in cases for e in embs3]
